@@ -761,7 +761,8 @@ def _seg_history(ctx, cfg, reader, E, segs, R, C, base_hist, reqs=None, pending=
         refusals += ['combine-no-rescale', 'combine-no-rescale', 'rescaled-int-dtype', 'rescaled-int-dtype']
     if len(segs) == 1:
         refusals = [k for k in refusals if k != 'combine-bool']     # bool represents label 1
-    use_model = reqs is not None and typ != 'LABELMAP'      # a label map is read without a channel table
+    use_model = reqs is not None
+    lm = typ == 'LABELMAP'                    # a label map is read without a channel table: `labelmap` steps of the state machine
     # does the caller hold on to the exceptions of refused calls for the rest of the history (their tracebacks keep the frames of the
     # failed read, and whatever those frames own, alive)?
     keep = cfg['idx'] % 2 == 0
@@ -796,9 +797,9 @@ def _seg_history(ctx, cfg, reader, E, segs, R, C, base_hist, reqs=None, pending=
                 after_refusal = kind
             if use_model:
                 sn = kw.get('segment_numbers', segs)
-                msteps.append({'data': _chan_data(sn, kw.get('combine_segments', False), kw.get('relabel', False)),
-                               'nch': len(sn), 'request': [[kw.get('row_start'), None, None, None, False]],
-                               'refuses': kind != 'region-out-of-range'})
+                msteps.append({'data': [] if lm else _chan_data(sn, kw.get('combine_segments', False), kw.get('relabel', False)),
+                               'nch': 1 if lm else len(sn), 'request': [[kw.get('row_start'), None, None, None, False]],
+                               'refuses': kind != 'region-out-of-range', 'labelmap': lm})
                 mimpl.append({'state': _temp_table_rows(reader), 'result': None, 'outcome': 'ok' if st == 'ok' else val.split(':')[0]})
                 mcases.append({'seg': cfg, 'history_step': step_no, 'steps': steps[:step_no + 1], 'refused_call': kind})
             continue
@@ -842,8 +843,10 @@ def _seg_history(ctx, cfg, reader, E, segs, R, C, base_hist, reqs=None, pending=
                                                     (typ == 'FRACTIONAL' and any(((g != 0) & (g != mfv)).any() for g in reg))))
                 elif step == 'rescaled' and typ == 'FRACTIONAL' and reg[0].size == 0:
                     refuses = True          # `out_array.max()` of an empty array raises inside the block
-            msteps.append({'data': data, 'nch': (max(k for k, _ in data) + 1) if combine else len(sub), 'request': [list(req)],
-                           'refuses': refuses})
+            if lm:
+                data, refuses = [], False       # no table; overlap / binary-fraction refusals do not exist for label maps
+            msteps.append({'data': data, 'nch': 1 if lm else (max(k for k, _ in data) + 1) if combine else len(sub), 'request': [list(req)],
+                           'refuses': refuses, 'labelmap': lm})
             raw = st == 'ok' and step in ('stacked', 'subset', 'dtype')
             mimpl.append({'state': _temp_table_rows(reader), 'outcome': 'ok' if st == 'ok' else val.split(':')[0],
                           'result': [np.asarray(val)[..., k].astype(np.int64).tolist() for k in range(len(sub))] if raw else None,
@@ -899,7 +902,10 @@ def _seg_history(ctx, cfg, reader, E, segs, R, C, base_hist, reqs=None, pending=
     del KEPT_EXCEPTIONS[:]
     if use_model and msteps:
         mats = [E[s_].tolist() for s_ in segs]
-        reqs.append(('segHistory', {'matrices': mats, 'segments': list(segs), 'rows': R, 'cols': C, 'th': cfg['th'], 'tw': cfg['tw'],
+        msegs = list(segs)
+        if lm:      # stored as ONE matrix of labels, channel 0
+            mats, msegs = [sum(s_ * E[s_] for s_ in segs).tolist()], [0]
+        reqs.append(('segHistory', {'matrices': mats, 'segments': msegs, 'rows': R, 'cols': C, 'th': cfg['th'], 'tw': cfg['tw'],
                                     'full': bool(full), 'omit_empty': bool(cfg['omit_empty']), 'steps': msteps}))
         pending.append(('history', mcases, mimpl, 'L0', 'history of segment-aware reads'))
 
@@ -1252,8 +1258,14 @@ def _settle(ctx, reqs, pending):
                 if (im['outcome'] == 'ok') != ('ok' in res):
                     ctx.disagree(layer, c, im['outcome'], res if 'err' in res else 'ok', 'history of reads: ok-vs-error')
                 elif im['result'] is not None and 'ok' in res:
+                    ctx.hist('history_results_compared_with_model', c.get('seg', {}).get('type'))
                     mod = [ch['ok']['data'] if 'ok' in ch else ch for ch in res['ok']]
                     shapes = [ch['ok']['shape'] for ch in res['ok'] if 'ok' in ch]
+                    if c.get('seg', {}).get('type') == 'LABELMAP' and len(mod) == 1 and isinstance(mod[0], list):
+                        # the model returns the stored labels; segment s is read back as (label == s), one channel per requested segment
+                        lab = np.asarray(mod[0], dtype=np.int64).reshape(shapes[0])
+                        mod = [(lab == s_).astype(np.int64).tolist() for s_ in c['segments']]
+                        shapes = shapes * len(mod)
                     if mod != im['result'] or any(sh != im['shape'] for sh in shapes):
                         ctx.disagree(layer, c, im['result'] if len(str(im['result'])) < 1500 else '...',
                                      mod if len(str(mod)) < 1500 else '...', 'history of reads: stacked result')
